@@ -94,6 +94,9 @@ BigCases == [read : {4}, write : {0}, conns : {1}, dir : {"download"}, kind : {"
 FastCases == [read : {160}, write : {0}, conns : {1}, dir : {"download"}, kind : {"plain"}, churn : {FALSE}]
 \* pp: the listener also expects a PROXY protocol header (the limits are a property of the listener, whatever else is stacked on it)
 PPCases == [read : {0, 4}, write : {0, 4}, conns : {1}, dir : {"download", "upload"}, kind : {"plain"}, churn : {FALSE}]
+\* drain: the proxy is told to shut down while the transfer is in flight (listeners closed, connections drained): the limit is
+\* a property of the listener's connections for as long as they move bytes (the model has no action that lifts it)
+DrainCases == [read : {0, 4}, write : {0, 4}, conns : {1}, dir : {"download", "upload"}, kind : {"plain"}, churn : {FALSE}]
 \* the limiter admits exactly the configured number of bytes per second, whatever the number
 Bandwidths == {1, 1000, 65536, 1048576, 4194304, 10485760, 41943040, 167772160, 419430400, 1000000000, 1073741824, 2000000000}
 LimitFor(c) == IF c.dir = "download" THEN c.read ELSE c.write
@@ -103,5 +106,6 @@ EmitCases == /\ \A c \in Cases : PrintT(ToJson([c |-> c, exp |-> Expect(c), big 
              /\ \A c \in TinyCases : PrintT(ToJson([c |-> c, exp |-> Expect(c), big |-> FALSE, tiny |-> TRUE]))
              /\ \A c \in FastCases : PrintT(ToJson([c |-> c, exp |-> Expect(c), big |-> FALSE, fast |-> TRUE]))
              /\ \A c \in PPCases : PrintT(ToJson([c |-> c, exp |-> Expect(c), big |-> FALSE, pp |-> TRUE]))
+             /\ \A c \in DrainCases : PrintT(ToJson([c |-> c, exp |-> Expect(c), big |-> FALSE, drain |-> TRUE]))
              /\ \A b \in Bandwidths : PrintT(ToJson([bandwidth |-> b, rate |-> b]))
 ==============================================================================
